@@ -33,6 +33,7 @@ type c01Scn struct {
 	ReadSize int      `json:"readSize"`
 	Strip    bool     `json:"strip"`
 	Wrap     bool     `json:"wrap"`
+	Brk      bool     `json:"brk"`
 	Exact    bool     `json:"exact"`
 	Interim  bool     `json:"interim"`
 	Depth    int      `json:"depth"`
@@ -128,6 +129,8 @@ func c01Run(s *c01Scn, va c01Variant, seedv int64) verdict {
 			return "% bad command"
 		},
 	}
+
+	cli.EchoBreak = s.Brk
 
 	if s.Wrap {
 		cli.EchoWrap = 2
@@ -374,6 +377,8 @@ func c01Reopen(s *c01Scn) verdict {
 			return "% bad command"
 		},
 	}
+	cli.EchoBreak = s.Brk
+
 	if s.Wrap {
 		cli.EchoWrap = 2
 	}
